@@ -145,6 +145,18 @@ class Tree:
         if not os.environ.get("VERIF_NO_CANON2"):
             self._canonical_locals("local_names_norm.json")
             self._resolve_moved()
+        self._unsplit()
+
+    def _unsplit(self):
+        """what is left of the variables split by split_webs goes back to its written name"""
+        for f in self.funcs.values():
+            if f.module.is_test():
+                continue
+            for x in ast.walk(f.node):
+                if isinstance(x, ast.Name) and "__" in x.id:
+                    base, _, k = x.id.rpartition("__")
+                    if base and k.isdigit() and not base.startswith("__"):
+                        x.id = base
 
     def _resolve_moved(self):
         """A pinned function (or nested function / method of a nested class) that is gone under its name but lives on, body unchanged, under
@@ -187,6 +199,15 @@ class Tree:
                 f.qual = k.split(":", 1)[1]  # the function answers to its pinned key (rules, tables of legitimate sites)
                 self.funcs[k] = f
                 self.moved.append(f"{k} -> {best} ({score:.2f})")
+                # a nested function renamed in place: its definition and the references of the enclosing function follow
+                if f.parent is not None and k.rsplit(".", 1)[0] == best.rsplit(".", 1)[0]:
+                    old_leaf, new_leaf = k.rsplit(".", 1)[1], best.rsplit(".", 1)[1]
+                    encl = f.parent.node
+                    if not any(isinstance(n, ast.Name) and n.id == old_leaf for n in ast.walk(encl)):
+                        f.node.name = old_leaf
+                        for n in ast.walk(encl):
+                            if isinstance(n, ast.Name) and n.id == new_leaf:
+                                n.id = old_leaf
         if self.moved:
             # the re-found functions get their pinned parameter / local vocabulary too
             self._canonical_params()
